@@ -1,6 +1,7 @@
 """C18 — PE artifacts and deduced Cobalt Strike version: generators, independent image builder, adapters.
 
 PE lines:   <op> <kind B|O> <data xhex> <pos0> <start none|n> <maxrange> <expect>
+            (any start offset / maxrange; section 2b of gen() produces junk(s) ++ P ++ I searched from s with maxrange m for every helper)
             op ∈ mz arch stamps mmz mpe ppa ;  kind B = io.BytesIO, O = a real temporary file opened "rb";
             <expect> is the ground truth of the *builder* (tokens joined by '_', '-' = no claim); the Lean driver ignores it,
             the oracle compares the real library's answer with it.
@@ -58,6 +59,7 @@ ASSUMPTIONS = [
     "file objects are io.BytesIO or regular files opened 'rb'; start_offset is None or a non-negative int, maxrange a non-negative int",
 ]
 RULE = ("histories on one BeaconConfig / one file object / repeated BeaconVersion constructions + grid of synthetic images (arch × e_lfanew × prepend × export dir × section count × append × magic × truncation × file kind) "
+        "+ junk(s) ++ P ++ I searched from start_offset s with maxrange m (s, |P|, e_lfanew on both sides of m and of 1024; decoy images in front of / straddling s) for every helper "
         "+ mutated/random images + all table keys ±1 + shaped/malformed version strings; distinct = hash of (stream, line); "
         "non-trivial = an MZ header was located / the version regex matched / a table key hit")
 
@@ -375,6 +377,59 @@ def gen(tier, rng, shard, nshards):
         exp = expectations(img, prepend, data, start, pos0, maxrange)
         yield from pe_lines(kind, data, pos0, start, maxrange, exp)
 
+    # ---- 2b. junk(s bytes) ++ P ++ I searched with start_offset = s and maxrange = m: the shape of `mz_found_at` ---------
+    # every helper, both tiers.  What a subtly wrong start/maxrange handling would change:
+    #   * `return offset` instead of `start_offset + offset`, a helper calling find_mz_offset with the default start/maxrange
+    #     → s > 0, a COMPLETE decoy image in front of s (other arch / stamps / magic), m ≠ 1024 with |P| or e_lfanew on the
+    #     far side of 1024 resp. of m;
+    #   * `range(maxrange)` / `e_lfanew < maxrange` off by one → |P| ∈ {m-1, m}, e_lfanew ∈ {m-1, m}, decoy starting at s-1;
+    #   * prepend read from start_offset instead of 0 → the expected prepend is everything in front of the image.
+    def stage_at(arch, m, lfa, s, pl, jmode, tellmode):
+        img = Img(rng, arch=arch, lfanew=lfa, nsec=rng.randrange(0, 4), export=rng.choice(["in", "in", "out", "none"]),
+                  append=rng.choice([b"", b"xyz\x00\x00", C.rbytes(rng, 9)]), big_stamp=True,
+                  magic_mz=rng.choice([None, None, b"MZRE", b"zz"]), magic_pe=rng.choice([b"PE\x00\x00", b"PE\x00\x00", b"AB\x00\x00"]))
+        body = img.build(rng)
+        other = "x64" if arch == "x86" else "x86"
+        junk = safe_prepend(rng, s)
+        P = safe_prepend(rng, pl)
+        if jmode == "decoy" and s >= 700:
+            # a complete, valid image of the OTHER architecture entirely in front of the start offset
+            d = Img(rng, arch=other, lfanew=64, nsec=1, export="in", raw_sizes=[64], append=b"")
+            db = d.build(rng)
+            if len(db) <= s:
+                at = rng.choice([0, s - len(db)])
+                junk = junk[:at] + db + junk[at + len(db):]
+        elif jmode == "straddle" and s >= 1:
+            # a valid image that begins ONE byte before the start offset (its header must not be inspected)
+            d = Img(rng, arch=other, lfanew=64, nsec=0, export="none")
+            db = d.build(rng)
+            junk = junk[:s - 1] + db[:1]
+            P = (db[1:] + P)[:pl] if pl else b""
+        prepend = junk + P
+        data = prepend + body
+        if tellmode:
+            start, pos0 = None, s
+        else:
+            start, pos0 = s, rng.choice([0, 0, 5, s, len(data), len(data) + 3])
+        kind = rng.choice("BBO")
+        exp = expectations(img, prepend, data, start, pos0, m)
+        return pe_lines(kind, data, pos0, start, m, exp)
+
+    for m in (65, 129, 2048):
+        for j, (s, pl) in enumerate(((1, 0), (7, m - 1), (1000, m), (1024, 1), (3, m - 2))):
+            if not mine():
+                continue
+            yield from stage_at("x64" if (j + m) % 2 else "x86", m, 64 if j % 2 else m - 1, s, pl,
+                                ("safe", "decoy", "straddle")[j % 3], False)
+    n2b = (900 if thorough else 140) // nshards
+    for _ in range(n2b):
+        m = rng.choice([65, 66, 100, 129, 257, 512, 1023, 1024, 1025, 2048, 2048] + ([4096] if thorough else []))
+        lfa = rng.choice([64, 64, 64, m - 1, m - 1, m, max(m - 2, 64), min(72, m - 1)])
+        s = rng.choice([1, 2, 7, 64, 100, 331, 1000, 1023, 1024, 1025, 3000])
+        pl = rng.choice([0, 0, 1, 2, m // 2, m - 2, m - 1, m - 1, m, m + 1, min(1024, m - 1), min(1023, m - 1)])
+        yield from stage_at(rng.choice(["x86", "x64"]), m, lfa, s, pl, rng.choice(["safe", "safe", "decoy", "straddle"]),
+                            rng.random() < 0.2)
+
     # ---- 3. two images / decoys: an earlier candidate exists (first one must win) ---------------------
     n3 = (400 if thorough else 80) // nshards
     for _ in range(n3):
@@ -516,7 +571,10 @@ def gen(tier, rng, shard, nshards):
                   export=rng.choice(["in", "in", "out", "none"]), append=rng.choice([b"", b"TAIL\x00\x00", C.rbytes(rng, 30)]),
                   magic_mz=rng.choice([None, b"MZRE", b"zz"]), overlap=rng.random() < 0.3)
         body = img.build(rng)
-        prepend = safe_prepend(rng, rng.choice([0, 0, 1, 7, 64, 300]))
+        # non-default maxrange and a non-zero start offset (junk of `js` bytes in front of it) in a third of the histories
+        mr = rng.choice([1024, 1024, 1024, 1024, 129, 300, 401, 2048])
+        js = rng.choice([0, 0, 0, 0, 5, 700])
+        prepend = safe_prepend(rng, js) + safe_prepend(rng, rng.choice([0, 0, 1, 7, 64, 300]))
         data = prepend + body
         if rng.random() < 0.15:
             data = data[:rng.randrange(0, len(data) + 1)]
@@ -528,13 +586,13 @@ def gen(tier, rng, shard, nshards):
             ops = list(PE_OPS)
             rng.shuffle(ops)
         for op in ops:
-            start = rng.choice([0, 0, 0, None, P, max(P - 1, 0), P + 1, 3])
-            sk = rng.choice(["-", "-", "0", str(P), str(rng.randrange(0, len(data) + 5)), str(len(data))])
+            start = rng.choice([0, 0, 0, None, P, max(P - 1, 0), P + 1, 3]) if js == 0 else rng.choice([js, js, js, None, 0, P, P + 1])
+            sk = rng.choice(["-", "-", "0", str(P), str(js), str(rng.randrange(0, len(data) + 5)), str(len(data))])
             exp = "-"
             if img is not None and (start is not None or sk != "-"):
-                exp = expectations(img, prepend, data, start, int(sk) if sk != "-" else 0, 1024)[op]
+                exp = expectations(img, prepend, data, start, int(sk) if sk != "-" else 0, mr)[op]
             items.append(f"{op}:{'none' if start is None else start}:{sk}:{exp}")
-        yield "pehist", f"pehist {rng.choice('BBO')} {C.hx(data)} 1024 {'|'.join(items)}"
+        yield "pehist", f"pehist {rng.choice('BBO')} {C.hx(data)} {mr} {'|'.join(items)}"
 
     # ---- character classes: every code point (thorough) / the BMP part that holds all white space + sampled blocks (quick)
     step = 4096
